@@ -554,6 +554,8 @@ func c08(c *core.Ctx) {
 			}
 		}
 	}
+	c.Rule("C08.pss", "RSA-PSS signatures (Aes256_Sha256_RsaPss) are produced with a salt as long as the hash: every rsa.SignPSS call passes PSSOptions{SaltLength: rsa.PSSSaltLengthEqualsHash}", 1)
+	pssSaltRule(c, "C08.pss")
 	// the ExtraPaddingSize byte of Part 6 §6.7.2.5: present iff the key that encrypts (the receiver's) is larger than
 	// 2048 bits — C07's lockstep obligations on the 256-byte tests apply verbatim
 	c.Rule("C08.padding", "the ExtraPaddingSize byte is emitted iff the remote (encrypting) key's signature length exceeds 256 bytes and expected iff the local key's does (Part 6 §6.7.2.5); SetMaximumBodySize reserves it under the sender's test", 2)
